@@ -1,5 +1,6 @@
 import Driver.C14
 import Driver.Conn
+import Driver.Viso
 /-! `vmodel`: the line-protocol driver over the executable Lean model.
     One case per input line (`<stream> <args…>`), one predicted observation per output line. -/
 namespace Driver
@@ -10,9 +11,10 @@ def dispatch (line : String) : String :=
   | tag :: args =>
     match tag with
     | "c14" => c14 args
-    | "conn" => connWith noWrap args
-    | "raw" => rawWith noWrap args
+    | "conn" => connWith fullWrap args
+    | "raw" => rawWith fullWrap args
     | "clean" => cleanOp args
+    | "viso" => visoOp args
     | "real" => realOp args
     | _ => "bad-op"
 
